@@ -26,6 +26,7 @@ import (
 	"runtime/pprof"
 	"sort"
 	"strings"
+	"sync"
 	"sync/atomic"
 	"time"
 
@@ -46,6 +47,7 @@ type sprayCLA struct {
 }
 
 func (s *sprayCLA) GetPeerEndpointID() bpv7.EndpointID {
+	sprayGateAt(sprayGCAtSelect)
 	if s.sync && atomic.CompareAndSwapInt32(&s.armed, 1, 0) {
 		time.Sleep(sprayDelay)
 	}
@@ -73,11 +75,75 @@ type sprayEv struct {
 	cla    int
 	node   int
 	fail   bool
+	gc     int // 0: plain; otherwise the metadata GC runs concurrently with the event (sprayGC* below)
+}
+
+// Where the concurrent garbage collection of a "par-gc" event is started.  The collection asks the
+// store about every metadata entry while it holds the algorithm's write lock; sprayLeftovers entries
+// of bundles unknown to the store (hook VerifSprayAddLeftovers) make it last long enough to span the
+// rest of the event.  Whatever the interleaving, on a correct tree the event behaves as without the
+// collection (it only removes entries of bundles the store does not know, and no bundle of these
+// histories leaves the store), so the observations do not depend on timing.
+const (
+	sprayGCFirst    = 1 // collection started first, the event a moment later (submit: NotifyNewBundle's entry)
+	sprayGCAtSelect = 2 // started from the first GetPeerEndpointID call of the event: SenderForBundle's write-back falls into it
+	sprayGCAtSend   = 3 // started from inside the first Send of the event: the failure reports fall into it
+)
+
+const sprayLeftovers = 800
+const sprayGCLead = time.Millisecond
+
+type sprayGate struct {
+	mode    int
+	once    sync.Once
+	started chan struct{}
+	done    chan struct{}
+	core    *routing.Core
+}
+
+func (g *sprayGate) launch() {
+	g.once.Do(func() {
+		go func() {
+			close(g.started)
+			t0 := time.Now()
+			g.core.VerifSprayGC()
+			if os.Getenv("VERIF_SPRAY_TIMING") != "" {
+				fmt.Fprintf(os.Stderr, "gc mode %d: %v\n", g.mode, time.Since(t0))
+			}
+			close(g.done)
+		}()
+		<-g.started
+		time.Sleep(sprayGCLead)
+	})
+}
+
+var sprayGateMu sync.Mutex
+var sprayGateCur *sprayGate
+
+func sprayGateSet(g *sprayGate) {
+	sprayGateMu.Lock()
+	sprayGateCur = g
+	sprayGateMu.Unlock()
+}
+
+// sprayGateAt is called by the mocks at their schedule points
+func sprayGateAt(point int) {
+	sprayGateMu.Lock()
+	g := sprayGateCur
+	sprayGateMu.Unlock()
+	if g != nil && g.mode == point {
+		g.launch()
+	}
 }
 
 func sprayNodeEID(n int) string { return fmt.Sprintf("dtn://p%d/", n) }
 
 func (e sprayEv) sexp() S {
+	if e.gc > 0 {
+		in := e
+		in.gc = 0
+		return L(Sym("par-gc"), I(e.gc), in.sexp())
+	}
 	switch e.kind {
 	case seCreate:
 		return L(Sym("create"), I(e.b), B(e.origin), B(e.viaRx), I(e.dst), optI(e.blk), optI(e.prev))
@@ -110,6 +176,10 @@ func sprayParseEv(s S) sprayEv {
 		return atomI(ll[0])
 	}
 	switch atomSym(l[0]) {
+	case "par-gc":
+		e := sprayParseEv(l[2])
+		e.gc = atomI(l[1])
+		return e
 	case "create":
 		return sprayEv{kind: seCreate, b: atomI(l[1]), origin: atomI(l[2]) != 0, viaRx: atomI(l[3]) != 0, dst: atomI(l[4]), blk: oi(l[5]), prev: oi(l[6])}
 	case "up":
@@ -189,6 +259,20 @@ func sprayRun(binary bool, mult uint64, syncMode bool, nb int, evs []sprayEv) []
 	var evOut []S
 	for _, e := range evs {
 		mark := n.LastSendN()
+		tEv := time.Now()
+		var gate *sprayGate
+		c0 := 0
+		if e.gc > 0 {
+			c0 = n.Core.VerifSprayMetaCount()
+			n.Core.VerifSprayAddLeftovers(1, sprayLeftovers)
+			gate = &sprayGate{mode: e.gc, core: n.Core, started: make(chan struct{}), done: make(chan struct{})}
+			if e.gc == sprayGCFirst {
+				gate.launch()
+			}
+			if e.kind != sePeerUp {
+				sprayGateSet(gate)
+			}
+		}
 		switch e.kind {
 		case seCreate:
 			sprayTS += 7
@@ -231,9 +315,13 @@ func sprayRun(binary bool, mult uint64, syncMode bool, nb int, evs []sprayEv) []
 				}
 				return f
 			}
+			m.Block = func(rec *SendRec) { sprayGateAt(sprayGCAtSend) }
 			clas[e.cla] = sc
 			n.Event++
 			n.Core.RegisterConvergable(sc)
+			if gate != nil {
+				sprayGateSet(gate) // registration asks for the peer's endpoint ID as well: gate only the forwarding
+			}
 			n.Core.VerifPeerAppeared(sc)
 		case sePeerDown:
 			if sc := clas[e.cla]; sc != nil {
@@ -254,6 +342,17 @@ func sprayRun(binary bool, mult uint64, syncMode bool, nb int, evs []sprayEv) []
 			n.TickPending()
 		case seGC:
 			n.Core.VerifSprayGC()
+		}
+		evS := e.sexp()
+		if gate != nil {
+			if os.Getenv("VERIF_SPRAY_TIMING") != "" {
+				fmt.Fprintf(os.Stderr, "event kind %d done %v\n", e.kind, time.Since(tEv))
+			}
+			gate.launch() // no schedule point was reached: the collection simply follows the event
+			<-gate.done
+			sprayGateSet(nil)
+			// metadata entries before the leftovers were added / after event and collection
+			evS = L(append(append([]S{}, evS.(sList)...), I(c0), I(n.Core.VerifSprayMetaCount()))...)
 		}
 		for _, sc := range clas {
 			atomic.StoreInt32(&sc.armed, 0)
@@ -333,7 +432,7 @@ func sprayRun(binary bool, mult uint64, syncMode bool, nb int, evs []sprayEv) []
 			}
 			obs = append(obs, L(LL(per[bi]), meta, B(stored)))
 		}
-		evOut = append(evOut, L(e.sexp(), LL(obs)))
+		evOut = append(evOut, L(evS, LL(obs)))
 	}
 	return []S{B(binary), U(mult), B(syncMode), I(nb), LL(evOut)}
 }
@@ -500,6 +599,36 @@ func sprayStress(o *Out, binary bool, rounds int) {
 	o.Case("hist", sprayRun(binary, L, false, 1, evs)...)
 }
 
+// sprayReplay re-runs the histories of the case lines in $VERIF_SPRAY_REPLAY, if set
+func sprayReplay(o *Out) bool {
+	f := os.Getenv("VERIF_SPRAY_REPLAY")
+	if f == "" {
+		return false
+	}
+	data, err := ioutil.ReadFile(f)
+	if err != nil {
+		panic(err)
+	}
+	for _, line := range strings.Split(string(data), "\n") {
+		line = strings.TrimSpace(line)
+		if !strings.HasPrefix(line, "(case ") {
+			continue
+		}
+		s, err := ParseS(line)
+		if err != nil {
+			panic(err)
+		}
+		l := s.(sList)
+		// (case n hist binary L sync nb (events))
+		var evs []sprayEv
+		for _, e := range l[7].(sList) {
+			evs = append(evs, sprayParseEv(e.(sList)[0]))
+		}
+		o.Case("hist", sprayRun(atomI(l[3]) != 0, atomU(l[4]), atomI(l[5]) != 0, atomI(l[6]), evs)...)
+	}
+	return true
+}
+
 func genC18spray(o *Out, r *Rng, thorough bool) {
 	defer sprayWork()()
 	defer debug.SetGCPercent(debug.SetGCPercent(400)) // the store allocates heavily; fewer collections
@@ -512,28 +641,7 @@ func genC18spray(o *Out, r *Rng, thorough bool) {
 	if !mgr.IsKnown(bpv7.ExtBlockTypeBinarySprayBlock) {
 		_ = mgr.Register(bpv7.NewBinarySprayBlock(0))
 	}
-	if f := os.Getenv("VERIF_SPRAY_REPLAY"); f != "" {
-		data, err := ioutil.ReadFile(f)
-		if err != nil {
-			panic(err)
-		}
-		for _, line := range strings.Split(string(data), "\n") {
-			line = strings.TrimSpace(line)
-			if !strings.HasPrefix(line, "(case ") {
-				continue
-			}
-			s, err := ParseS(line)
-			if err != nil {
-				panic(err)
-			}
-			l := s.(sList)
-			// (case n hist binary L sync nb (events))
-			var evs []sprayEv
-			for _, e := range l[7].(sList) {
-				evs = append(evs, sprayParseEv(e.(sList)[0]))
-			}
-			o.Case("hist", sprayRun(atomI(l[3]) != 0, atomU(l[4]), atomI(l[5]) != 0, atomI(l[6]), evs)...)
-		}
+	if sprayReplay(o) {
 		return
 	}
 
